@@ -10,7 +10,7 @@ CLAIMED = {
     "C01": dict(
         category="exploration",
         technique="exhaustive enumeration of grid point (multi)sets x construction configurations through the real constructors, judged by exact-arithmetic and brute-force reference models",
-        text="Every subset of small exact grids per dimension (all 466 subsets of the 3x3 grid under the full 864-configuration product; subsets of the 4x4 grid, the unit cube (+centre), D=4/5 cube alphabets and a general-position moment-curve family under every single-axis deviation from the default configuration), every ordered arrangement for the Input ordering, and multiset / 2^+-40 scale / 2^30 shift / near-duplicate / clustered variants are built through both kernels in the release and the debug-assertion profile. Every Ok result is re-validated from its raw cells by an independent reference (Levels 1-3 at the configured guarantee incl. completion-time vertex links, convex embedding, exact empty-circumsphere outside the tolerance band, vertex/UUID/data/perturbation accounting, statistics identities); panics are violations. Exhaustive over the stated alphabets; nothing sampled.",
+        text="Every subset of small exact grids per dimension (all 466 subsets of the 3x3 grid under the full 864-configuration product; subsets of the 4x4 grid, the unit cube (+centre), D=4/5 cube alphabets and a general-position moment-curve family under every single-axis deviation from the default configuration, and the guarantee x ordering product on every 5th degenerate D>=3 set), every ordered arrangement for the Input ordering, and multiset / 2^+-40 scale / 2^30 shift / near-duplicate / clustered variants are built through both kernels in the release and the debug-assertion profile. Every Ok result is re-validated from its raw cells by an independent reference (Levels 1-3 at the configured guarantee incl. completion-time vertex links, convex embedding, exact empty-circumsphere outside the tolerance band, vertex/UUID/data/perturbation accounting, statistics identities); panics are violations. Exhaustive over the stated alphabets; nothing sampled.",
         note="Trusts the harness's exact arithmetic and reference validators; verdicts cover the listed alphabets only. Known genuine defects (non-Delaunay results certified in D>=4 and for one 2-D clustered family) are listed in known_findings.json by (dimension, kernel, input family, mechanism) and reported as KNOWN-FINDING lines.",
         design_ref="DESIGN.md section 4 (C01)"),
     "C02": dict(
@@ -28,19 +28,19 @@ CLAIMED = {
     "C04": dict(
         category="model_checking",
         technique="explicit-state enumeration of the complete flip-graph closure with the real flip calls; every state judged against an exact (bigint) empty-circumsphere oracle",
-        text="For every subset (sizes D+2..D+5) of per-dimension point alphabets - degenerate grids and an exactly verified general-position family, D=2..5, both kernels - the complete closure under the k>=2 Edit-API flips is computed by BFS over real DelaunayTriangulation objects (so every flip distance from Delaunay that exists for the point set is a state). Every state that passes the independent Level 1-3 + convex-embedding reference is judged through is_valid, validate, validation_report, is_delaunay_via_flips and find_delaunay_violations: accept => no vertex certainly strictly inside a circumsphere in exact arithmetic outside the recomputed tolerance band (soundness); general position and strictly Delaunay => not rejected (completeness).",
+        text="For every subset (sizes D+2..D+5) of per-dimension point alphabets - degenerate grids and an exactly verified general-position family, D=2..5, both kernels - the complete closure under the k>=2 Edit-API flips is computed by BFS over real DelaunayTriangulation objects (so every flip distance from Delaunay that exists for the point set is a state), from the batch-constructed triangulation and again from a build with recycled vertex slots. Every state that passes the independent Level 1-3 + convex-embedding reference is judged through is_valid, validate, validation_report, is_delaunay_via_flips and find_delaunay_violations: accept => no vertex certainly strictly inside a circumsphere in exact arithmetic outside the recomputed tolerance band (soundness); general position and strictly Delaunay => not rejected (completeness).",
         note="State identity in the closure is the cell set (verdicts are functions of the complex). Trusts the exact oracle and the reference validators. Known genuine defects (degenerate-flip skip in D=3, both-positive suppression in D>=4, band-limited local checks on slivers) are listed in known_findings.json per (api group, D, family, mechanism).",
         design_ref="DESIGN.md section 5 (C04)"),
     "C07": dict(
         category="model_checking",
         technique="explicit-state exploration of the flip-graph closure; every flip handle in every state applied to the real object and judged against recomputed combinatorial invariants and the inverse move",
-        text="In every state of the cap-bounded combinatorial closure of each small point set (D=2..5, degenerate and moment-curve families, both kernels): all six Edit-API entry points x every handle that can be formed (every cell x facet index incl. D+1 and 255, every ridge index pair incl. equal indices, every vertex pair and triple, every vertex, stale/foreign keys, k=1 insertion at an interior and a far point). Every flip that reports success must leave Levels 1-2 valid by the independent reference, preserve facet degrees, closed boundary, connectedness, Euler characteristic, boundary facet set and vertex set (k>=2), change the cell count by (D+2-k)-k, describe removed/new cells exactly (new cells == star of the inserted face), and the inverse move addressed through the created face must succeed and restore the identical cell set.",
+        text="In every state of the cap-bounded combinatorial closure of each small point set (D=2..5, degenerate and moment-curve families, both kernels), started from the batch-constructed triangulation and from a build with recycled vertex slots (every slot occupied and vacated before, so that key order by (index, version) and by raw value disagree): all six Edit-API entry points x every handle that can be formed (every cell x facet index incl. D+1 and 255, every ridge index pair incl. equal indices, every vertex pair and triple, every vertex, stale/foreign keys, k=1 insertion at an interior and a far point). Every flip that reports success must leave Levels 1-2 valid by the independent reference, preserve facet degrees, closed boundary, connectedness, Euler characteristic, boundary facet set and vertex set (k>=2), change the cell count by (D+2-k)-k, describe removed/new cells exactly (new cells == star of the inserted face), and the inverse move addressed through the created face must succeed and restore the identical cell set.",
         note="Closures above the cap are truncated (reported as closures_capped / exhaustive=false for those). Err outcomes are C03's subject.",
         design_ref="DESIGN.md section 5 (C07)"),
     "C08": dict(
         category="model_checking",
         technique="explicit-state enumeration of repair starts (complete flip-graph closure, removal and repair-off insertion successors) with the real repair calls; exact oracle and brute-force unique-Delaunay reference",
-        text="Both repair entry points are run from every valid state of the complete flip closure of each point set (every flip distance), from each seed after removing each vertex with repair disabled and from the incremental build with repair disabled, under all three topology guarantees, both kernels, D=2..5. On Ok: identical vertex set (UUID, coordinate bits, data), independent Level 1-3 reference, no certain exact empty-circumsphere violation, and for exactly general-position sets the cell set must equal the brute-force unique Delaunay triangulation; on Err the fingerprint must be unchanged; Ok is a violation when the public admissibility predicate rejects flips under the guarantee; every call must return within the work ceiling.",
+        text="Both repair entry points are run from every valid state of the complete flip closure of each point set (every flip distance; from the batch-constructed triangulation and from a build with recycled vertex slots), from each seed after removing each vertex with repair disabled and from the incremental build with repair disabled, under all three topology guarantees, both kernels, D=2..5. On Ok: identical vertex set (UUID, coordinate bits, data), independent Level 1-3 reference, no certain exact empty-circumsphere violation, and for exactly general-position sets the cell set must equal the brute-force unique Delaunay triangulation; on Err the fingerprint must be unchanged; Ok is a violation when the public admissibility predicate rejects flips under the guarantee; every call must return within the work ceiling.",
         note="Known genuine defects (repair certifies non-Delaunay results in D=3 via the degenerate-flip skip and in D>=4 via the both-positive suppression) are listed per (op, D, family, start kind, mechanism). One defect found here was repaired (fix: 2cc646d, negative orientation after public repair).",
         design_ref="DESIGN.md section 5 (C08)"),
     "C09": dict(
@@ -58,7 +58,7 @@ CLAIMED = {
     "C06": dict(
         category="model_checking",
         technique="exhaustive enumeration of (state, vertex) removal transitions on the real object plus BFS insert/remove histories; independent reference and exact oracle on every successor",
-        text="Every vertex (interior, hull, degree-(D+1) star, one of the last D+2) of the batch-constructed triangulation of every subset of the per-dimension alphabets (3x3 and 4x4 grids, unit cube + centre, D=4/5 cube alphabets, moment curves) is removed with automatic repair on and off (all three guarantees on the smallest family), then every vertex of every successor again on small sets, plus breadth-first insert/remove histories from seeds. On Ok: the vertex is gone, every other vertex keeps UUID, coordinate bits and data, the result is the bootstrap state or passes the independent Level 1-3 reference, and with repair enabled has no certain exact empty-circumsphere violation; Err must leave the fingerprint unchanged; removing an unknown vertex must return Ok(0) and change nothing.",
+        text="Every vertex (interior, hull, degree-(D+1) star, one of the last D+2) of the batch-constructed triangulation of every subset of the per-dimension alphabets (3x3 and 4x4 grids, unit cube + centre, D=4/5 cube alphabets, moment curves) is removed under the repair policies EveryInsertion, Never and EveryN(2) (insertion counter of either parity; all three guarantees on the smallest family), then every vertex of every successor again on small sets, plus breadth-first insert/remove histories from seeds. On Ok: the vertex is gone, every other vertex keeps UUID, coordinate bits and data, the result is the bootstrap state or passes the independent Level 1-3 reference, and with repair enabled has no certain exact empty-circumsphere violation (under EveryN only when the state before the removal had none); Err must leave the fingerprint unchanged; removing an unknown vertex must return Ok(0) and change nothing.",
         note="Known genuine defects: hull-vertex removal returns Ok with an invalid complex (listed per dimension / symptom / repair setting with victim=hull), and repair-on removals inherit the Level-4 verifier's blind spots. Interior-vertex violations are not listed and are reported.",
         design_ref="DESIGN.md section 5 (C06)"),
     "C10": dict(
